@@ -12,7 +12,7 @@ ASSUMPTIONS = [
     "the harness computes keep/eliminate sets, energies and the canonical-basis Hamiltonian itself from the user-level specification",
 ]
 
-BUDGET = {"quick": dict(cases=1000, seconds=75), "thorough": dict(cases=16000, seconds=540)}
+BUDGET = {"quick": dict(cases=1000, seconds=300), "thorough": dict(cases=16000, seconds=540)}
 CASE_TIMEOUT = 150
 MONITORS = {"poison": True}
 MONITOR_VERDICTS = ("fp", "nonfinite", "write")
